@@ -58,7 +58,7 @@ UNIT = dict(
                  ("C01:a_stateful_read_never_trims_its_first_entry", "start_offset is None ==> ret.1 == initial_trim_in"),
                  ("C16,C11:every_planned_range_lies_in_a_wellformed_block", "forall|k: int| 0 <= k < ret.0.len() ==> wf_block((#[trigger] ret.0[k]).blk)"),
                  ("C01:a_stateful_tail_range_resumes_at_the_tail_cursor_only_if_that_cursor_belongs_to_this_very_block",
-                  "(start_offset is None && ret.0.len() > 0 && ret.0@.last().is_tail) ==> writer_snapshot is Some && ret.0@.last().start == (if tail_block_id == writer_snapshot->Some_0.0.id { tail_offset } else { 0 }) && ret.0@.last().end == writer_snapshot->Some_0.1 && ret.0@.last().blk == writer_snapshot->Some_0.0"),
+                  "(start_offset is None && ret.0.len() > 0 && ret.0@.last().is_tail) ==> writer_snapshot is Some && ret.0@.last().start == (if tail_block_id == writer_snapshot->Some_0.0.id { tail_offset } else { 0 }) && ret.0@.last().end <= writer_snapshot->Some_0.1 && ret.0@.last().blk == writer_snapshot->Some_0.0"),
                  ("C01:unread_tail_entries_are_planned_once_the_sealed_chain_is_exhausted",
                   "(start_offset is None && ret.2 >= chain.len() && writer_snapshot is Some && (if tail_block_id == writer_snapshot->Some_0.0.id { tail_offset } else { 0 }) < writer_snapshot->Some_0.1) ==> (ret.0.len() > 0 && ret.0@.last().is_tail)"),
                  ("C03:at_most_one_range_per_sealed_block_plus_the_tail", "ret.0.len() <= chain.len() - cur_idx_in + 1"),
